@@ -84,10 +84,25 @@ def direct_target(job):
     for spec in job["specs"]:
         cfg = pipeline.make_config(spec)
         g = RegionGeomToO(cfg)
-        g.throw(int(spec["thrown"]))
+        for rethrow in (False, True):
+            if not rethrow:
+                g.throw(int(spec["thrown"]))
+            else:
+                # the SAME object thrown again with the same instants in reverse order (same number of survivors, other event times):
+                # whatever the object remembers from the first throw must not leak into the integrals
+                n = int(spec["thrown"])
+                g.throw((np.arange(n) / n)[::-1].copy())
+            events += _target_calls(g, cfg, spec, rng, max(2, job["calls"] // 2) if rethrow else job["calls"], rethrow)
+    return events
+
+
+def _target_calls(g, cfg, spec, rng, ncalls, rethrow):
+    events = []
+    job = {"calls": ncalls}
+    if True:
         nv = len(g.pathLens())
         if nv == 0:
-            continue
+            return events
         beta, theta, path = np.asarray(g.beta_rad()), np.asarray(g.thetas()), np.asarray(g.pathLens())
         ip, sm = cfg.detector.initial_position, cfg.detector.sun_moon
         sa, ma, ph = sky.sun_moon(ip.latitude, ip.longitude, ip.altitude, g.val_times())
@@ -95,7 +110,7 @@ def direct_target(job):
         margin = min(np.min(np.abs(sa - sm.sun_alt_cut)), np.min(np.abs(ma - sm.moon_alt_cut)),
                      np.min(np.abs(ph - sm.moon_min_phase_angle_cut)))
         if margin < 1e-9:
-            continue    # a dark-sky boolean decided within 1e-9 rad of a threshold is inconclusive
+            return events    # a dark-sky boolean decided within 1e-9 rad of a threshold is inconclusive
         for k in range(job["calls"]):
             method = "Optical" if k % 2 == 0 else "Radio"
             thr = float(rng.choice([1.0, 5.0, 10.0]))
@@ -123,7 +138,7 @@ def direct_target(job):
                 "evs": [_ev(beta[i], theta[i], 0.0, path[i], pexit[i], lenDec[i], trig[i], cosEff[i], dark[i],
                             0.0 if contrib is None else contrib[i]) for i in range(nv)],
                 "out": _out(res), "unitSpectrum": norm * wsum == 1.0, "hasContrib": contrib is not None,
-                "_m": {"src": "direct", "mode": "Target", "method": method, "spec": spec, "call": k, "nvalid": nv,
+                "_m": {"src": "direct", "mode": "Target", "method": method, "spec": spec, "call": k, "nvalid": nv, "rethrown": rethrow,
                        "ndark": int(dark.sum()), "out": [float(res[0]), float(res[1]), int(res[2])]}})
     return events
 
